@@ -1626,6 +1626,8 @@ BOUNDED = ["replay grammar (round 4): every structure nested in every operand sl
            "m:supHide / m:degHide in every ST_OnOff spelling (an operand hidden by a property that is switched ON may be rendered or "
            "left out; switched off or absent it must be rendered), containers outside the vocabulary, foreign wrappers, repeated "
            "equations in one container",
+           "replay grammar (round 5): every structure with its property element and every schema child of it, m:val absent and with "
+           "sample values (a bar placed below the base, m:barPr/m:pos = bot, may be rendered as an underline or as the documented overline)",
            "order of the formula lists built at the docx / pptx call sites (display equations first, document order): "
            "native comparison on the container scope of replay/C19.py::site_scope, not proved",
            "run texts emitted exactly once and in source order: checked natively by replay/C19.py on all schema-shaped "
